@@ -25,6 +25,8 @@ def gen(ctx, part, maxlen=1):
 
 PREFIX = [{"k": "equ", "nm": "K5", "e": {"o": "n", "v": 5}},
           {"k": "data", "mn": "DB", "items": [{"t": "e", "e": {"o": "n", "v": 144}}]},
+          {"k": "label", "nm": ".tbl"}, {"k": "data", "mn": "DB", "items": [{"t": "e", "e": {"o": "n", "v": 7}}]}, {"k": "label", "nm": "$x"},
+          {"k": "data", "mn": "DB", "items": [{"t": "e", "e": {"o": "n", "v": 8}}]}, {"k": "label", "nm": "lbl.end"},
           {"k": "label", "nm": "lbl0"},
           {"k": "data", "mn": "DB", "items": [{"t": "e", "e": {"o": "n", "v": 1}}, {"t": "e", "e": {"o": "n", "v": 2}}]}]
 
